@@ -226,7 +226,7 @@ class Run:
         nviol = 0
         if self.viol:
             rc = 1
-            rdir = os.path.join(VERIF, "replays", self.pid)
+            rdir = os.path.join(os.environ.get("VERIF_REPLAY_DIR") or os.path.join(VERIF, "replays"), self.pid)
             os.makedirs(rdir, exist_ok=True)
             ordered = sorted(self.viol.items(), key=lambda kv: len(cjson(kv[1]["case"])))
             for sig, e in ordered[:20]:
@@ -267,7 +267,8 @@ class Run:
             "coverage": cov, "assumptions": self.assumptions, "wall_s": round(wall, 2),
             "violations": nviol + len(self.harness_errors),
         }
-        epath = os.path.join(VERIF, "evidence", f"{self.pid}.json")
+        # mutant / scratch runs (VERIF_EVIDENCE_DIR set) must not overwrite the committed evidence
+        epath = os.path.join(os.environ.get("VERIF_EVIDENCE_DIR") or os.path.join(VERIF, "evidence"), f"{self.pid}.json")
         os.makedirs(os.path.dirname(epath), exist_ok=True)
         with open(epath, "w") as f:
             json.dump(ev, f, indent=1, default=str)
